@@ -72,4 +72,62 @@ func init() {
 			c.guard("bytecount", func() { ruleByteCount(c, "bytecount", "io/featio/bed", "io/featio/gff"); c.floor("bytecount", 28) })
 		},
 	})
+	cloneTargets := [][2]string{
+		{"seq/linear", "(*Seq).Clone"}, {"seq/linear", "(*QSeq).Clone"},
+		{"seq/alignment", "(*Seq).Clone"}, {"seq/alignment", "(*QSeq).Clone"},
+		{"seq/alignment", "Row.Clone"}, {"seq/alignment", "QRow.Clone"},
+		{"seq/multi", "(*Multi).Clone"},
+	}
+	register(&propDef{
+		ID: "C05",
+		Explanation: "fresh/clonedeep: in every Clone() of linear.Seq/QSeq, alignment.Seq/QSeq/Row/QRow and multi.Multi, each slice-typed field of the returned object (found from the struct type, not by name) is assigned a freshly allocated value, and when its elements own storage (slices, or sequences behind an interface) every element stored is itself a fresh copy; interface/func typed fields are shared by design and exempt by type. loopdep: the offset each row receives in Multi.RevComp and Multi.Reverse depends on the loop's row variable — necessary for mirroring rows of unequal extent about the alignment's span.",
+		NotDecided:  "that RevComp equals reverse-then-complement, involution, that qualities travel with letters, the middle element, strand negation (value-level).",
+		Assumptions: []string{"append(T(nil), x...), make, composite literals, X.Make(..) and Clone()/CloneAnnotation() results are newly allocated; Append/Copy chains stay in the storage of their root"},
+		Run: func(c *Ctx) {
+			c.guard("fresh/clonedeep", func() {
+				for _, t := range cloneTargets {
+					ruleCloneDeep(c, "fresh/clonedeep", t[0], t[1])
+				}
+				c.floor("fresh/clonedeep", 9)
+			})
+			c.guard("loopdep", func() {
+				ruleLoopDep(c, "loopdep", "seq/multi", "(*Multi).RevComp", "SetOffset")
+				ruleLoopDep(c, "loopdep", "seq/multi", "(*Multi).Reverse", "SetOffset")
+				c.floor("loopdep", 2)
+			})
+		},
+	})
+	register(&propDef{
+		ID: "C06",
+		Explanation: "fresh/freshdst: in sequtils.Join, Truncate, Stitch and Compose the argument of every SetSlice (on the destination and on the scratch reverser) is classified FRESH (X.Make(..) roots with Append/Copy chains, make, element stores of fresh values) unless the call sits in the then-branch of `dst == src` — so when destination and source differ the result shares no storage with the source and the source is never reversed in place. mustpass: in Compose, a must-dataflow over go/cfg (facts reset at the loop head) shows that every path reaching the append of the scratch reverser's slice has, in the same iteration, installed the current segment (SetSlice) and reversed it (RevComp|Reverse).",
+		NotDecided:  "positional correctness of slice bounds, clipping arithmetic, Stitch's interval merge, Trim's optimality, error-not-panic for out-of-range arguments (value-level).",
+		Assumptions: []string{"alphabet.Slice.Make allocates; Append/Copy write into their receiver's storage or a grown copy of it"},
+		Run: func(c *Ctx) {
+			c.guard("fresh/freshdst", func() { ruleFreshDst(c, "fresh/freshdst", "Join", "Truncate", "Stitch", "Compose"); c.floor("fresh/freshdst", 7) })
+			c.guard("mustpass", func() { ruleScratchReverse(c, "mustpass"); c.floor("mustpass", 1) })
+		},
+	})
+	register(&propDef{
+		ID: "C07",
+		Explanation: "fresh/retain: AppendColumns/AppendEach of alignment.Seq, alignment.QSeq, multi.Multi and multi.Set.AppendEach never store a slice-typed caller value into receiver storage — directly, as an append element, by spreading a slice of slices, or by passing it (or a loop-reused scratch buffer) to a method summarised as retaining its parameter (summaries computed for every method of seq/alignment, seq/multi, seq/linear). fresh/clonedeep: as C05 (Clone is deep).",
+		NotDecided:  "row-view = column-view equality, Delete/Flush/Subseq semantics, consensus (value-level).",
+		Assumptions: []string{"append(dst, xs...) copies the elements of xs; it retains xs only when the elements themselves are slices"},
+		Run: func(c *Ctx) {
+			c.guard("fresh/retain", func() {
+				ruleRetain(c, "fresh/retain", [][2]string{
+					{"seq/alignment", "(*Seq).AppendColumns"}, {"seq/alignment", "(*Seq).AppendEach"},
+					{"seq/alignment", "(*QSeq).AppendColumns"}, {"seq/alignment", "(*QSeq).AppendEach"},
+					{"seq/multi", "(*Multi).AppendColumns"}, {"seq/multi", "(*Multi).AppendEach"},
+					{"seq/multi", "Set.AppendEach"},
+				}, "seq/alignment", "seq/multi", "seq/linear")
+				c.floor("fresh/retain", 7)
+			})
+			c.guard("fresh/clonedeep", func() {
+				for _, t := range cloneTargets {
+					ruleCloneDeep(c, "fresh/clonedeep", t[0], t[1])
+				}
+				c.floor("fresh/clonedeep", 9)
+			})
+		},
+	})
 }
